@@ -20,6 +20,7 @@ type CheckDef struct {
 	Technique      string
 	Hidden         bool
 	CFG            []CFGCheck
+	NoMergeFns     []string
 	Explanation    string
 	Bounds         map[string]string // tier -> bounds text
 	Outside        []string
@@ -243,6 +244,21 @@ func init() {
 		Bounds: map[string]string{"quick": "task pool: 2 producers, 3 tasks, one or two flow keys, 1 preemption, each timer fires <=2 times; overflow: bursts of 1/128/129/257/430 tasks for one flow before the worker runs, 0-2 later tasks (deterministic schedule); tuples: 3 owners over 2 tuples (1 preemption), hand-over of 1 tuple between two generations with a concurrent close", "thorough": "2 preemptions for the task pool"},
 		Outside: []string{"UdpEndpointPool (GetOrCreate, dial de-duplication, failure cool-down, retire, janitor, adoptGeneration)", "overflow FIFO interleaved with concurrent producers (the burst harness fills it before the worker runs)", "task panics", "pool Close/Reset racing with producers", "data races on non-atomic fields"},
 		Assumptions: []string{"goroutines switch only at synchronisation operations", "BpfMapBatchDelete replaced by a shadow table", "the kernel re-creates a flow entry once an owner has retained its tuple"},
+		QuickBudget: 10 * time.Minute, ThoroughBudget: 60 * time.Minute,
+	}
+	checks["C17"] = &CheckDef{
+		Pkgs: []string{"./component/dns", "./common"},
+		Harness: []string{"component/dns:Verif_C17_dns_capacity", "common:Verif_C17_include_scope"},
+		NoMergeFns: []string{"filepathlite.", "path/filepath."},
+		MaxIter: 2000,
+		Level:   "other",
+		LevelText: "Two of the property's clauses are within reach of the executor and are checked on the real code. (1) Rule programs beyond the supported size are rejected with an error, never a crash: the real DNS request-routing compiler (NewRequestMatcherBuilder, NormalizedRequestRoutingProgram.Lower, addQName / addQType, Build with the real AhocorasickSlimtrie) is run on programs of 29..34 rules around the match-set limit (the limit variable lowered to 32), the kinds of the rules next to the limit symbolic: no panic; a qname rule at an index the matcher cannot hold makes Build return an error; an accepted program routes a name only its last qname rule lists by that rule and an arbitrary (symbolic) query type by the first rule that matches it. (2) An included file is never read from outside the entry configuration directory: common.EnsureFileInSubDir (with the real filepath.Dir / Rel / Clean) on every path of 5 symbolic bytes over {a . /} below /etc/dae: acceptance implies that the file's directory, resolved lexically by an independent reference, is /etc/dae or below. A genuine defect was found while building this check and repaired (see known_findings.json): a domain/qname rule beyond the limit crashed start-up and reload.",
+		LevelNote: "NOT covered, and stated as outside the claim: the text -> parse tree -> sections step (ANTLR's ATN interpreter over generated tables is beyond the executor: thousands of table-driven states per token), the reflection-driven typed configuration (package reflect is not encoded), include merging order and cycle detection (file system). The claim is therefore partial: the capacity and include-scope clauses only.",
+		Technique: techniqueText,
+		Explanation: "Bounded symbolic execution of rule-program compilation at the match-set limit and of the include-scope test.",
+		Bounds: map[string]string{"quick": "29..34 rules + fallback, limit 32, kinds of rules 28.. symbolic (qname/qtype), symbolic 16-bit query type; include paths: 5 symbolic bytes over {a . /} under /etc/dae", "thorough": "include paths of 7 symbolic bytes"},
+		Outside: []string{"config text -> AST (ANTLR)", "config.SectionParser / ParamParser (reflection)", "Merger.dfsMerge: order, cycles, globbing, permissions", "symlinks (EnsureFileInSubDir is lexical)", "the main routing section's kernel-side capacity (rejected by the kernel map in production)"},
+		Assumptions: []string{"consts.MaxMatchSetLen lowered to 32 (it is a variable; all tables are sized from it)"},
 		QuickBudget: 10 * time.Minute, ThoroughBudget: 60 * time.Minute,
 	}
 	checks["ZZ"] = &CheckDef{
